@@ -12,17 +12,8 @@ from sa import dataflow as df
 from sa.autorule import check_auto
 from sa.resolver import Resolver
 from sa.term import H, I, INV, MUL, SCAL, T, VAR, TermEval, alternatives, equal, expand, has_opaque, norm, opaque_text, show, sym
-from sa.termutil import guard_hyps
+from sa.termutil import guard_hyps, kind_def
 
-KIND_DEF = {
-    "Product": lambda a: ("fam", "mul", 1, VAR, f"{a}.Ms"),
-    "Kronecker": lambda a: ("fam", "kron", 1, VAR, f"{a}.Ms"),
-    "BlockDiag": lambda a: ("fam", "bdiag", 1, VAR, f"{a}.Ms", f"{a}.multiplicities"),
-    "Identity": lambda a: I,
-    "ScalarMul": lambda a: SCAL(("ssym", f"{a}.c"), I),
-    "Diagonal": lambda a: ("diag", sym(f"{a}.diag")),
-    "Permutation": lambda a: ("perm", sym(f"{a}.perm")),
-}
 ITERATIVE = {"CG", "GMRES"}
 
 
@@ -39,43 +30,62 @@ def gram_range(idx, rep, rule, construct, te):
         rep.undecided("gram-range", construct, "no iterative inverse of a Gram matrix found")
         return
 
+    def rows_lt_cols(t, p, pol):
+        """value of the test (normalised t with polarity p) on a strictly wide (pol=True) / strictly tall (pol=False) operator; None when
+        it is not a rows-vs-columns comparison"""
+        t = df.resolve_value(fi.node, t)
+        if isinstance(t, ast.UnaryOp) and isinstance(t.op, ast.Not):
+            t, p = t.operand, not p
+            t = df.resolve_value(fi.node, t)
+        if isinstance(t, ast.Compare) and len(t.ops) == 1 and ".shape" in nospace(t):
+            l, r = nospace(t.left).replace("[-2]", "[0]").replace("[-1]", "[1]"), nospace(t.comparators[0]).replace("[-2]", "[0]").replace("[-1]", "[1]")
+            op = t.ops[0]
+            kind = None
+            if l == f"{a}.shape[0]" and r == f"{a}.shape[1]":
+                kind = {ast.Lt: "lt", ast.LtE: "le", ast.Gt: "gt", ast.GtE: "ge"}.get(type(op))
+            elif l == f"{a}.shape[1]" and r == f"{a}.shape[0]":
+                kind = {ast.Lt: "gt", ast.LtE: "ge", ast.Gt: "lt", ast.GtE: "le"}.get(type(op))
+            if kind is not None:
+                val = {"lt": pol, "le": pol, "gt": not pol, "ge": not pol}[kind]
+                return val if p else not val
+        return None
+
     def specialise(e, pol):
-        """e with every conditional expression on the rows-vs-columns test replaced by the branch taken when `rows < cols` is pol"""
+        """e with every conditional expression on the rows-vs-columns test replaced by the branch taken on that shape"""
         e = df.resolve_value(fi.node, e)
         if isinstance(e, ast.IfExp):
             t, p = df.normalise_test(df.resolve_value(fi.node, e.test))
-            if isinstance(t, ast.Compare) and len(t.ops) == 1 and ".shape" in nospace(t):
-                l, r = nospace(t.left).replace("[-2]", "[0]").replace("[-1]", "[1]"), nospace(t.comparators[0]).replace("[-2]", "[0]").replace("[-1]", "[1]")
-                op = t.ops[0]
-                rows_lt_cols = None
-                if l == f"{a}.shape[0]" and r == f"{a}.shape[1]":
-                    rows_lt_cols = {ast.Lt: "lt", ast.LtE: "le", ast.Gt: "gt", ast.GtE: "ge"}.get(type(op))
-                elif l == f"{a}.shape[1]" and r == f"{a}.shape[0]":
-                    rows_lt_cols = {ast.Lt: "gt", ast.LtE: "ge", ast.Gt: "lt", ast.GtE: "le"}.get(type(op))
-                if rows_lt_cols is not None:
-                    # value of the (positive-polarity) test on a strictly wide (pol=True) / strictly tall (pol=False) operator
-                    val = {"lt": pol, "le": pol, "gt": not pol, "ge": not pol}[rows_lt_cols]
-                    if not p:
-                        val = not val
-                    return specialise(e.body if val else e.orelse, pol)
-            return None
+            val = rows_lt_cols(t, p, pol)
+            if val is None:
+                return None
+            return specialise(e.body if val else e.orelse, pol)
         return e
 
     for shape_name, pol in (("wide (rows < columns)", True), ("tall (rows > columns)", False)):
-        g = specialise(solver[0].args[0], pol)
-        if g is None:
-            rep.undecided("gram-range", f"{construct}:{'wide' if pol else 'tall'}", "Gram matrix chosen by a condition that is not a rows/columns comparison")
+        tag = f"{construct}:{'wide' if pol else 'tall'}"
+        # the solver calls that run on an operator of this shape (the index's normal form lays a shape flag out as if/else branches)
+        live = [c for c in solver if not any(rows_lt_cols(t, p, pol) is False for t, p in df.branch_conditions(c, fi.node))]
+        if not live:
+            rep.undecided("gram-range", tag, f"{shape_name}: no iterative solve is reached")
             continue
-        gt = norm(te.eval_in(fi, g))
-        loc = [idx.loc(fi.module, solver[0])]
-        if gt == inner:
-            rep.proved("gram-range", f"{construct}:{'wide' if pol else 'tall'}", f"{shape_name}: the solver runs on H({a})·{a}; the vector H({a}) b it is applied to lies in its range for every {a}", locs=loc)
-        elif gt == outer:
-            rep.decide(True if pol else False, "gram-range", f"{construct}:{'wide' if pol else 'tall'}", f"{shape_name}: the solver runs on {a}·H({a})" + ("; b lies in its range when the rows are independent" if pol else
-                       f", which is singular for a tall {a}; the right-hand side b is in general not in range({a}), so the iterative solve diverges instead of returning the least-squares solution"),
-                       detail="" if pol else "outer-gram", locs=loc)
-        else:
-            rep.undecided("gram-range", f"{construct}:{'wide' if pol else 'tall'}", f"{shape_name}: the solver runs on {show(gt)}", locs=loc)
+        verdicts = []
+        for c in live:
+            g = specialise(c.args[0], pol)
+            loc = [idx.loc(fi.module, c)]
+            if g is None:
+                verdicts.append((None, "Gram matrix chosen by a condition that is not a rows/columns comparison", loc, ""))
+                continue
+            gt = norm(te.eval_in(fi, g))
+            if gt == inner:
+                verdicts.append((True, f"{shape_name}: the solver runs on H({a})·{a}; the vector H({a}) b it is applied to lies in its range for every {a}", loc, ""))
+            elif gt == outer:
+                verdicts.append((True if pol else False, f"{shape_name}: the solver runs on {a}·H({a})" + ("; b lies in its range when the rows are independent" if pol else
+                                 f", which is singular for a tall {a}; the right-hand side b is in general not in range({a}), so the iterative solve diverges instead of returning the least-squares solution"),
+                                 loc, "" if pol else "outer-gram"))
+            else:
+                verdicts.append((None, f"{shape_name}: the solver runs on {show(gt)}", loc, ""))
+        bad = next((v for v in verdicts if v[0] is False), None) or next((v for v in verdicts if v[0] is None), None) or verdicts[0]
+        rep.decide(bad[0], "gram-range", tag, bad[1], detail=bad[3], locs=bad[2])
 
 
 def nospace(n):
@@ -98,8 +108,9 @@ def check_inverse_rules(idx, rep, res, fname, pseudo=False):
             continue  # decision table below
         te = TermEval(idx)
         defs = {}
-        if len(kinds) == 1 and kinds[0] in KIND_DEF:
-            defs[sym(a)] = KIND_DEF[kinds[0]](a)
+        kd = kind_def(idx, kinds[0], a) if len(kinds) == 1 else None
+        if kd is not None:
+            defs[sym(a)] = kd
         rets = [r for r in df.returns(fi.node) if r.value is not None]
         for r in rets:
             hyp = set(guard_hyps(idx, fi, r))
@@ -126,10 +137,11 @@ def check_inverse_rules(idx, rep, res, fname, pseudo=False):
                 rep.note(f"{construct}: regularised normal equations on purpose ((inv(A^H A) + eps I) A^H); no exact-algebra obligation")
                 gram_range(idx, rep, rule, construct, te)
                 continue
-            want = INV(sym(a))
+            # pinv rules: the Moore-Penrose inverse of the operand's defining term (it is the inverse on the invertible payload kinds)
+            want = ("pinv", sym(a)) if pseudo else INV(sym(a))
             ok = equal(t, want, frozenset(hyp), d2)
             hy = ", ".join(sorted(f"{h[0]}({show(h[1])})" for h in hyp))
-            rep.decide(ok, "inverse-rule", construct, f"returns {show(norm(expand(t, d2), frozenset(hyp)))}; required inv({show(norm(expand(sym(a), d2)))}) = {show(norm(expand(want, d2), frozenset(hyp)))}"
+            rep.decide(ok, "inverse-rule", construct, f"returns {show(norm(expand(t, d2), frozenset(hyp)))}; required {'pinv' if pseudo else 'inv'}({show(norm(expand(sym(a), d2)))}) = {show(norm(expand(want, d2), frozenset(hyp)))}"
                        + (f" under {hy}" if hy else "") + (f" [outside the grammar: {opaque_text(norm(t))}]" if ok is None else ""),
                        detail="" if ok else "meaning", locs=[loc])
         # recursive calls forward the algorithm
